@@ -3,10 +3,25 @@
   Only statements the property makes; helper lemmas live in Proofs/C12*.lean.
 
   `cfg` is built from Generated/C12.lean, which the translator rewrites from /repo's source on
-  every run. `cfg_good` is the proof obligation that breaks when a separator literal, the
-  ` (deleted)` suffix or its cut length, the 15 of `name()`, the kind of string `name()` tests
-  (bytes vs code points) or the newline mode of `open_text` changes. Every theorem below is
-  then about the code's own configuration.
+  every run. Proof obligations fed by it (each breaks when the source changes what it pins):
+    * `cfg_good` — the 6 separator literals of cmdline() and its "exactly one trailing separator is removed"
+      shape, the 2 literals of parse_environ_block, readlink's NUL / ` (deleted)` / cut length, the 15 of
+      `name()`, the kind of string `name()` tests (bytes vs code points), the newline mode of `open_text`, and
+      the four exception tables read from the `except` clauses of name()/exe() (`cfg_except_clauses`);
+    * `cfg_block_cached_sources` — which methods a oneshot() block caches (none of C12's);
+    * `cfg_gone_test` — `wrap_exceptions` tests `/proc/<pid>/stat` (#2418) and asks the zombie test first;
+    * `cfg_zombie_parser` — `_is_zombie`'s own parser: byte 2 after the LAST `)`, compared with `Z`;
+    * `cfg_text_decoding` — `open_text` decodes with the file-system encoding and error handler.
+  Every theorem below is then about the code's own configuration.
+
+  Kinds of statement in this file (see also the header of Spec/C12.lean):
+    SPEC   model = byte-level specification written from the statement (cmdline/environ/link/name rules,
+           round-trips through the kernel's renderers, histories);
+    CHAR   characterisation of the code where the statement does not decide (padded titles, cut files, the
+           exception arms of exe()/name()/cwd(), `C12_link_withheld_unknown_liveness`) — said so in the docstring;
+    INV    branch-free invariants about the WORLD only (`C12_exe_result_invariant`, …);
+    MODEL  facts about the model alone, whose weight is the correspondence (`C12_exe_cached`,
+           `C12_zombie_identity`, `C12_oneshot_same_answers`) — said so in the docstring.
 -/
 import PsutilModel.Proofs.C12Front
 import PsutilModel.Proofs.C12Round3
@@ -61,6 +76,16 @@ theorem cfg_gone_test :
 theorem cfg_zombie_parser :
     Gen.C12.isZombieLastParen = true ∧ Gen.C12.isZombieStateWindow = (2, 3)
     ∧ Gen.C12.isZombieLetter = [90] := by decide
+
+/-- **cfg_text_decoding.** `open_text` decodes the procfs files with the FILE-SYSTEM encoding and its error
+    handler (`sys.getfilesystemencoding()` / `sys.getfilesystemencodeerrors()`: UTF-8 + surrogateescape under the
+    pinned PYTHONUTF8=1, the pair `os.fsencode`/`os.fsdecode` use) — the assumption under which the model may
+    work on BYTES (trusted: "str↔bytes is a bijection"). A literal encoding, the locale's preferred encoding or
+    another error handler would be indistinguishable under the pinned configuration (or lossy: `replace`), so the
+    "arbitrary non-UTF-8 bytes" half of the quantifier rests on this obligation. -/
+theorem cfg_text_decoding :
+    Gen.C12.openTextEncoding = "sys.getfilesystemencoding()"
+    ∧ Gen.C12.openTextErrors = "sys.getfilesystemencodeerrors()" := by decide
 
 /-- **C12_except_clause_order_matters.** Why the clauses are facts and not only their union: with
     `except NoSuchProcess: raise` placed BEFORE `except (AccessDenied, ZombieProcess): pass` (ZombieProcess is
@@ -328,7 +353,10 @@ theorem C12_environ_duplicates (w : World) (env : List (Bytes × Bytes)) (hd : w
 
 /-- **C12_link_cleanup.** For every link target: NUL garbage is cut; a ` (deleted)` suffix is
     removed iff nothing with the suffixed name exists; a file really named `… (deleted)`
-    keeps its name. (`tail` = nothing, or NUL followed by anything.) -/
+    keeps its name. (`tail` = nothing, or NUL followed by anything.) This is a statement about the clean-up
+    function `readlinkClean` (= `_pslinux.readlink` after `os.readlink`); that `cwd()` and the native `exe()`
+    return exactly this for a readable link is `C12_link_spec` (through `Spec.link`, whose `.target` arm is
+    `linkClean` = this clean-up, `readlinkClean_eq`). -/
 theorem C12_link_cleanup (fs : Bytes → FsEnt) (p tail : Bytes) (hp : 0 ∉ p)
     (ht : tail = [] ∨ tail.head? = some 0) :
     (fs (p ++ deleted) = .absent → readlinkClean cfg fs (p ++ deleted ++ tail) = .ok p)
@@ -388,7 +416,10 @@ theorem C12_exe_refines (ws : List World) (w : World) (r : Res Bytes)
     (h : Spec.exeAfter ws w = some r) : (exe cfg w (runExe cfg St.init ws)).2 = r := by
   rw [cfg_good]; exact exeAfter_sound ws w r h
 
-/-- **C12_exe_cached.** Once an answer is remembered it is returned forever (also `''`). -/
+/-- **C12_exe_cached.** Once an answer is remembered it is returned forever (also `''`). (MODEL: true by the
+    first line of the model's `exe` — `if self._exe is not None: return self._exe` is not a translator fact; that
+    the real method behaves so rests on the correspondence: mode `again`, the 120 exe-branch cases with a later
+    readable link, mutation M5. The history-level statement against the specification is `C12_exe_refines`.) -/
 theorem C12_exe_cached (v : Bytes) (ws : List World) (w : World) :
     exe cfg w (runExe cfg ⟨some v⟩ ws) = (⟨some v⟩, .ok v) := by
   rw [runExe_cached]; rfl
@@ -492,10 +523,50 @@ theorem C12_exe_eacces_link (w : World) (hd : w.dirExists = true) (hl : w.exe = 
     | nil => exact key _ false (by simp [Spec.exeOnce, hlink, Spec.guessOf, hc]) rfl
     | cons a0 rest =>
       by_cases hg : a0.head? = some 47 ∧ 0 ∉ a0 ∧ w.fs a0 = .file true
-      · simp only [hg, and_self, if_true]
+      · simp only [hg]
         exact key _ false (by simp [Spec.exeOnce, hlink, Spec.guessOf, hc, hg]) rfl
       · simp only [hg, if_false]
         exact key _ false (by simp [Spec.exeOnce, hlink, Spec.guessOf, hc, hg]) rfl
+
+/-- **C12_exe_withheld_link.** `C12_exe_withheld` stated on the WORLD instead of on the platform method's
+    answer: the kernel withholds `/proc/<pid>/exe` (ENOENT/ESRCH) from a live process (`stat` readable, not `Z`).
+    For every cmdline file: a guessable `argv[0]` → that path; no usable guess, an empty cmdline, or a DENIED
+    cmdline → `''` — all remembered; a cmdline that says the process is gone → that error, nothing remembered. -/
+theorem C12_exe_withheld_link (w : World) (e : Err) (hd : w.dirExists = true) (hs : w.statExists = true)
+    (hr : w.statReadable = true) (hz : w.zombie = false) (he : e ≠ .eacces) (hl : w.exe = .err e)
+    (r : Res (List Bytes)) (hc : Spec.cmdline w = some r) :
+    exe cfg w ⟨none⟩ =
+      match r with
+      | .ok (a0 :: _) => if a0.head? = some 47 ∧ 0 ∉ a0 ∧ w.fs a0 = .file true then (⟨some a0⟩, .ok a0)
+                         else (⟨some []⟩, .ok [])
+      | .ok [] => (⟨some []⟩, .ok [])
+      | .error .accessDenied => (⟨some []⟩, .ok [])
+      | .error x => (⟨none⟩, .error x) := by
+  have hlink : Spec.link w w.exe = some (.ok []) := by
+    cases e <;> simp_all [Spec.link, Spec.zombie]
+  have key : ∀ x rem, Spec.exeOnce w = some (x, rem) → exe cfg w ⟨none⟩ = (⟨remembered x rem⟩, x) :=
+    fun x rem h => C12_exe_fallback w x rem h
+  cases r with
+  | error x =>
+    cases x with
+    | accessDenied =>
+      simpa [remembered] using key (.ok []) true (by simp [Spec.exeOnce, hlink, Spec.guessOf, hc])
+    | noSuchProcess =>
+      simpa [remembered] using key (.error .noSuchProcess) false (by simp [Spec.exeOnce, hlink, Spec.guessOf, hc])
+    | zombieProcess =>
+      simpa [remembered] using key (.error .zombieProcess) false (by simp [Spec.exeOnce, hlink, Spec.guessOf, hc])
+    | fileNotFound =>
+      simpa [remembered] using key (.error .fileNotFound) false (by simp [Spec.exeOnce, hlink, Spec.guessOf, hc])
+  | ok cl =>
+    cases cl with
+    | nil =>
+      simpa [remembered] using key (.ok []) true (by simp [Spec.exeOnce, hlink, Spec.guessOf, hc])
+    | cons a0 rest =>
+      by_cases hg : a0.head? = some 47 ∧ 0 ∉ a0 ∧ w.fs a0 = .file true
+      · simp only [hg]
+        simpa [remembered] using key (.ok a0) true (by simp [Spec.exeOnce, hlink, Spec.guessOf, hc, hg])
+      · simp only [hg, if_false]
+        simpa [remembered] using key (.ok []) true (by simp [Spec.exeOnce, hlink, Spec.guessOf, hc, hg])
 
 /-- **C12_cwd_exe_zombie.** A zombie has no cwd / exe: when the kernel withholds the link
     (ENOENT/ESRCH) both raise ZombieProcess — never `''`, and `exe()` does not try to guess —
@@ -700,7 +771,7 @@ theorem C12_exe_denied_never_remembered (w : World) (hl : w.exe = .err .eacces) 
 
 /-- **C12_zombie_never_empty_string.** A known zombie whose link cannot be read (any errno) never gets `''`
     from `cwd()` or `exe()`: the empty string is reserved for live processes. -/
-theorem C12_zombie_never_empty_string (w : World) (hd : w.dirExists = true) (hz : Spec.zombie w = true) :
+theorem C12_zombie_never_empty_string (w : World) (hz : Spec.zombie w = true) :
     (∀ e, w.cwd = .err e → cwd cfg w ≠ .ok [])
     ∧ (∀ e, w.exe = .err e → (exe cfg w ⟨none⟩).2 ≠ .ok []) := by
   rw [cfg_good]
@@ -874,7 +945,11 @@ theorem C12_call_refines_outside_silent (hist : List (World × Call)) (w : World
     `status`: real uid) still read as at their FIRST read in the block and everything else
     (cmdline, environ, the links, the file system, the zombie test) reads as it does NOW. In
     particular: an empty block changes no answer, and a warm block in an unchanged world
-    changes no answer. -/
+    changes no answer. (MODEL = MODEL: `stepIn` and `step ∘ Block.view` are both hand-written; no specification is
+    involved. What ties it to the code: `cfg_block_cached_sources` — the translator's list of memoised / activated
+    methods contains the two sources of `Block` and none of C12's methods — and the correspondence modes `warm` /
+    `after_block`, whose warm-ups call environ, cmdline, cwd and the platform exe/cwd/environ/cmdline in an
+    EARLIER world so that a newly memoised method shows as a stale answer: mutations A3/A3b.) -/
 theorem C12_oneshot_same_answers (b : Block) (st : St) (w : World) (c : Call)
     (hd : w.dirExists = true) (hs : w.statExists = true) (hr : w.statReadable = true) :
     stepIn cfg b st w c = step cfg st (b.view w) c
